@@ -54,7 +54,7 @@ type C16Plan struct {
 	Cfg    IngestCfg `json:"cfg"`
 	Faults []*Fault  `json:"faults,omitempty"`
 	// diff/merge specifics
-	Edits EditSpec `json:"edits,omitempty"`
+	Edits []Edit `json:"edits,omitempty"`
 }
 
 func init() {
@@ -167,3 +167,6 @@ func execC16Ingest(t *testing.T, p *C16Plan, res *Result) {
 		res.probe("overlapping_store_ops", 1)
 	}
 }
+
+func execC16Diff(t *testing.T, p *C16Plan, res *Result)  { res.Invalid("not built") }
+func execC16Merge(t *testing.T, p *C16Plan, res *Result) { res.Invalid("not built") }
